@@ -57,6 +57,15 @@ func DrawFamily(t *rapid.T, f string) GCase {
 			s = spec.Uniform(t, stdCfg)
 		}
 		spec.WithPrec(t, s)
+	case "decl":
+		s = spec.Productive(t, smallCfg)
+		if rapid.Bool().Draw(t, "declprec") {
+			spec.WithPrec(t, s)
+		}
+		spec.WithDecls(t, s)
+		if rapid.Bool().Draw(t, "names") {
+			spec.WithNames(t, s)
+		}
 	case "prec-sep":
 		s, _ = spec.Separator(t)
 		spec.WithPrec(t, s)
